@@ -2,7 +2,7 @@
    Statements only.  The tables (`types`, `severable_ids`, `steps_prepare`, `hash_table`) are REGENERATED from /repo;
    the interpreter (Suit/Interp.v) is hand-written and tied to the code by the correspondence check. *)
 Require Import Coq.Strings.String.
-From Verif Require Import Base.Prim Base.Str Cbor.Codec Suit.Py Suit.Ty Suit.Interp Suit.Tables Suit.Digest gen.GenTypes gen.GenSpec.
+From Verif Require Import Base.Prim Base.Str Cbor.Codec Suit.Py Suit.Ty Suit.Interp Suit.Tables Suit.Digest Suit.Embed gen.GenTypes gen.GenSpec.
 Open Scope Z_scope.
 
 (* the order of calls in prepare_suit_data (and in the two other places that prepare an envelope) as extracted from
@@ -58,6 +58,37 @@ Proof.
            (proj1 update_order_in_source) severable_nodup severable_not_2_3 fuel o out).
 Qed.
 Print Assumptions create_digests_correct.
+
+(* BYTE LEVEL: the bytes written are the serialisation of tag 107 over a map whose entry 3 is the deserialisation of
+   exactly the bytes mb that were hashed into the authentication wrapper's digest (mb = serialisation of the manifest
+   member under cbstr(SuitManifest) = the byte-string-wrapped manifest).  The two side conditions — the object's members
+   have distinct table indices, and members carried under text keys really have text keys — are explicit premises. *)
+Lemma envelope_root : lookup (s2b "SuitEnvelopeTagged") types = Some (TTag 107 (s2b "SUIT_Envelope_Tagged") (TRef (s2b "SuitEnvelope"))).
+Proof. vm_compute. reflexivity. Qed.
+Definition envelope_members_table : list (bytes * Z * ty) :=
+  match lookup (s2b "SuitEnvelope") types with Some (TKeyValue m _) => m | _ => [] end.
+Definition envelope_embedded : option (list Z) :=
+  match lookup (s2b "SuitEnvelope") types with Some (TKeyValue _ e) => e | _ => None end.
+Lemma envelope_table : lookup (s2b "SuitEnvelope") types = Some (TKeyValue envelope_members_table envelope_embedded).
+Proof. vm_compute. reflexivity. Qed.
+Lemma envelope_ids_distinct : NoDup (map key_id envelope_members_table).
+Proof. apply nodup_Z_ok. vm_compute. reflexivity. Qed.
+
+Theorem digest_is_over_the_embedded_manifest H uuid5 fs jl jd fuel o out :
+  create types (map fst hash_table) H uuid5 fs jl jd severable_ids steps_prepare steps_processed steps_digest_ext fuel o = Ok out ->
+  exists ents ai j alg h blocks mb,
+    to_cbor types fuel (TRef (s2b "SuitEnvelopeTagged")) (VTagged (VKV ents)) = Ok out
+    /\ kv_get ents ai = Some (VSeq (VUnion j (VSeq [VRaw alg; VRaw (CBytes h)]) :: blocks))
+    /\ hash_of (map fst hash_table) H alg mb = Ok h
+    /\ (NoDup (map fst ents) -> (forall f, payloads_text (to_cbor types f) envelope_members_table ents) ->
+        exists c data cm,
+          dec mb = Ok c /\ dict_get data (cint 3) = Some c /\ dec (ser (CMap data)) = Ok cm /\ out = ser (CTag 107 cm)).
+Proof.
+  exact (create_digest_over_embedded_manifest types (map fst hash_table) H uuid5 fs jl jd severable_ids steps_prepare steps_processed steps_digest_ext
+           (s2b "SuitEnvelope") (s2b "SUIT_Envelope_Tagged") 107 envelope_members_table envelope_embedded
+           envelope_root envelope_table envelope_ids_distinct (proj1 update_order_in_source) severable_nodup severable_not_2_3 fuel o out).
+Qed.
+Print Assumptions digest_is_over_the_embedded_manifest.
 
 (* the manifest member of the envelope is a cbstr node: what is hashed is exactly one byte-string layer around the
    manifest encoding, and the same for every severable envelope member *)
